@@ -243,9 +243,31 @@ func ruleValidateFirst(c *eng.Ctx) {
 		opens := eng.Calls(fn, false, func(n string, _ ssa.CallInstruction) bool {
 			return strings.HasSuffix(n, ".Open") && !strings.HasPrefix(n, "os.")
 		})
+		names := map[ssa.CallInstruction]string{}
+		for _, o := range opens {
+			names[o] = eng.CalleeName(o)
+		}
+		// a package's Open handed as a function value to a helper that calls it (one open-and-wrap helper for all formats)
+		for _, ci := range eng.Calls(fn, false, func(string, ssa.CallInstruction) bool { return true }) {
+			for _, a := range ci.Common().Args {
+				var f *ssa.Function
+				switch x := a.(type) {
+				case *ssa.Function:
+					f = x
+				case *ssa.MakeClosure:
+					f, _ = x.Fn.(*ssa.Function)
+				case *ssa.ChangeType:
+					f, _ = x.X.(*ssa.Function)
+				}
+				if f != nil && f.Name() == "Open" && f.Pkg != nil && f.Pkg.Pkg.Name() != "os" && eng.InModule(f) {
+					opens = append(opens, ci)
+					names[ci] = eng.FuncName(f)
+				}
+			}
+		}
 		for _, o := range opens {
 			g := eng.GuardedBy(fn, o.Block(), errIsNilFact(vcall))
-			c.Check(g, R, "tabula.(*Extractor).ensureReader#"+eng.CalleeName(o), o.Pos(), "opened only after validateFormat succeeded", eng.CalleeName(o)+" can run although validateFormat failed or was skipped: mismatched content is handed to the wrong parser")
+			c.Check(g, R, "tabula.(*Extractor).ensureReader#"+names[o], o.Pos(), "opened only after validateFormat succeeded", names[o]+" can run although validateFormat failed or was skipped: mismatched content is handed to the wrong parser")
 		}
 		if len(opens) < 7 {
 			c.Viol(R, "tabula.(*Extractor).ensureReader#opens", fn.Pos(), fmt.Sprintf("only %d reader Open calls found, 7 formats expected", len(opens)))
